@@ -81,8 +81,19 @@ func (c *Cache[K, D]) CheckExpirations(now time.Time) {
 	c.Range(func(key K, value *Element[D]) bool {
 		if value.IsExpired(now) {
 			verifhook.Yield("cache.sweep.beforeDelete", 0)
-			c.Delete(key)
-			value.onExpire(value.Data())
+			// remove the entry only if it is still the expired element seen by Range:
+			// it may have been replaced by a fresh one in the meantime.
+			deleted := false
+			c.ReplaceWithFunc(key, func(oldValue *Element[D], oldLoaded bool) (*Element[D], bool) {
+				if oldLoaded && oldValue == value && value.IsExpired(now) {
+					deleted = true
+					return nil, true
+				}
+				return oldValue, !oldLoaded
+			})
+			if deleted {
+				value.onExpire(value.Data())
+			}
 		}
 		return true
 	})
